@@ -2050,13 +2050,22 @@ impl<'a, C: Crypto> TransportRunner<'a, C> {
                 let exchange = unwrap!(session.exchanges[exch_index].as_mut());
 
                 if exchange.mrp.is_ack_pending() {
-                    self.write_packet(
+                    // An acknowledgement that cannot be built must not keep the exchange
+                    // around: the sweeper would find it again at once and never yield
+                    if let Err(e) = self.write_packet(
                         packet,
                         Some(session),
                         Some(exch_index),
                         false,
                         |_| Ok(Some(OpCode::MRPStandAloneAck.into())),
-                    )?;
+                    ) {
+                        error!(
+                            "Dropped exchange {}: cannot acknowledge ({:?}), closing anyway",
+                            exchange_id.display(session),
+                            e
+                        );
+                        packet.buf.clear();
+                    }
                 }
 
                 warn!("Dropped exchange {}: Closed", exchange_id.display(session));
